@@ -531,3 +531,53 @@ def _placement_concrete(W, sk):
             v = df["value"].iloc[i]
             want[tuple(d.items.index(k) for k, d in zip(keys[i], dims.dim_list))] = 0.0 if pd.isna(v) else float(v)
     W.prove("result.every_row_value_at_its_labels_everything_else_zero", bool(np.allclose(R, want, rtol=0, atol=1e-12)))
+
+
+@unit(
+    "tables.mustfail_rows_placed_in_table_order",
+    props=["C11", "C12"],
+    targets=["flodym._df_to_flodym_array.DataFrameToFlodymDataConverter._check_data_complete"],
+    skeletons=lambda tier: [{"ndim": 1}],
+    expect="refuted",
+    stubs=["pandas.DataFrame", "itertools.product", "logging.warning"],
+)
+def u_mustfail_placement(W, sk):
+    """wrong contract: the k-th row's value ends up at position k (ignores the labels)"""
+    if not W.symbolic:
+        import numpy as np
+        from flodym.flodym_arrays import FlodymArray
+
+        dims = make_dims(W, 1, allow_single=False)
+        x = make_array(W, dims, strided=False)
+        df = long_table(x).iloc[::-1].reset_index(drop=True)  # rows in reversed order
+        out = W.call(lambda: FlodymArray.from_df(dims=dims, df=df))
+        W.prove("mf.returns", out.kind == "return")
+        if out.kind == "return":
+            W.forall_range("mf.row_k_at_position_k(wrong)", [(0, len(df))], lambda idx: W.num_eq(out.value.values[idx[0]], float(df["value"].iloc[idx[0]])))
+        return
+    import z3
+    import flodym._df_to_flodym_array as mod
+    from fvc import core, symtable
+    from fvc.core import to_int, wrap
+    from flodym._df_to_flodym_array import DataFrameToFlodymDataConverter, FlodymDataFormat
+    from .arrays import mk_dims
+
+    D = mk_dims(W, "a")
+    target = W.array("old", [D["a"]])
+    n = core.sym_int("n_rows", 0)
+    W.in_dims["rows"] = n
+    rows = symtable.Rows(n)
+    f = z3.Function("cell_a", z3.IntSort(), z3.IntSort())
+    valf = z3.Function("cell_value", z3.IntSort(), z3.RealSort())
+    cols = {D["a"].name: symtable.Col(rows, "item", lambda i: f(to_int(i)), name=D["a"].name), "value": symtable.Col(rows, "real", lambda i: valf(to_int(i)), name="value")}
+    conv = DataFrameToFlodymDataConverter.__new__(DataFrameToFlodymDataConverter)
+    conv.df = symtable.SymTable(rows, cols)
+    conv.flodym_array = target
+    conv.allow_missing_values = False
+    conv.allow_extra_values = False
+    conv.format = FlodymDataFormat(type="long", value_column="value")
+    out = W.call(lambda: conv._check_data_complete(), stubs=[(mod, "itertools", symtable.FakeItertools()), (mod.logging, "warning", lambda *a, **k: None)])
+    if out.kind != "return":
+        return
+    k = W.fresh_int("mf_row", 0, n)
+    W.prove("mf.row_k_at_position_k(wrong)", W.num_eq(W.elem(out.value, (k,)), wrap(valf(to_int(k)))))
